@@ -43,13 +43,15 @@ class Spec:
     redir: bool = False                 # the script redirects the stderr of its redo-ifchange calls into a file of its own
     sync: Tuple[Tuple[str, str, str], ...] = ()   # E2 only: (position start|mid|end, action wait|set, flag) -- scripts that wait for each other
 
-    def rebase(self, do_dir: str, arg1: str = "") -> "Spec":
-        """names as the reference model uses them: relative to the project root instead of the rule's directory"""
+    def rebase(self, do_dir: str, arg1: str = "", canon=None) -> "Spec":
+        """names as the reference model uses them: relative to the project root instead of the rule's directory (and, with
+        `canon`, through the world's directory symlinks)"""
         import dataclasses
         import posixpath
-        if not do_dir:
+        if not do_dir and canon is None:
             return dataclasses.replace(self, arg1=arg1) if arg1 else self
-        f = lambda n: posixpath.normpath(posixpath.join(do_dir, n))
+        g = canon or (lambda n: n)
+        f = lambda n: g(posixpath.normpath(posixpath.join(do_dir, n)) if do_dir else n)
         sel = None
         if self.sel:
             sel = (f(self.sel[0]), tuple((v, tuple(f(d) for d in ds)) for v, ds in self.sel[1]))
@@ -453,6 +455,10 @@ def curated() -> Dict[str, World]:
          "c.do": [S(kind="csum", deps=["s"], fail="flag", proj=True, out="file")]},
         ["top", "t", "c"], ["top", "t"],
         prefixes=[[["ifchange", ["top"]], ["edit", "flag", "1"], ["redo", ["t"]]]])
+    W["linkdir"] = World(   # a target behind a user-made symbolic link to a directory, requested through the link
+        "linkdir", {"src": ["0", "1"]},
+        {"top.do": [S(deps=["lib/gen"])], "shared/gen.do": [S(deps=["../src"], out="file")]},
+        ["top", "shared/gen"], ["top", "lib/gen"], symlinks={"lib": "shared"})
     W["csum-burst"] = World(   # the checksummed node's data reaches redo-stamp through a pipe, in two bursts
         "csum-burst", {"s": V3},
         {"top.do": [S(deps=["c"])], "c.do": [S(kind="csum", deps=["s"], bursts=True)]},
